@@ -76,8 +76,8 @@ class Session:
                 ops.append(['peerq', i, 'reply'])
             ops.append(['peer', -1, 'reply'])
             if not any(q == (-1, 'bigsig') for q in self.queued):
-                # a 3 KB unrelated signal written (unread) ahead of later replies: a blocking wait then wakes up at least
-                # once without its reply (the transport reads 2048 bytes per iteration)
+                # a 9 KB unrelated signal written (unread) ahead of later replies: a blocking wait then wakes up at least
+                # once without its reply (the transport reads at most about 4 KB per iteration)
                 ops.append(['peerq', -1, 'bigsig'])
             ops.append(['close'])
         ops.append(['advance', 1500])
@@ -121,7 +121,7 @@ class Session:
         self.peer_serial += 1
         rs = self.calls[i]['serial'] if i in self.calls else 99999
         if kind == 'bigsig':
-            m = R.signal(self.peer_serial, '/s', 's.s', 'Big', [R.S('b' * 3000)])
+            m = R.signal(self.peer_serial, '/s', 's.s', 'Big', [R.S('b' * 9000)])
         elif kind == 'reply':
             m = R.method_return(self.peer_serial, rs, None, [R.U(1)])
         else:
